@@ -77,3 +77,15 @@ package pogreb
 //@     invariant forall q int :: off(segments) + rangeindex#2 < q && q < off(segments) + len(segments) ==> contents(segments)[q] != nil && contents(segments)[q].id < 32767 && db.datalog.segments[contents(segments)[q].id] == contents(segments)[q]
 //@     invariant forall q1 int, q2 int :: off(segments) <= q1 && q1 < q2 && q2 < off(segments) + len(segments) ==> contents(segments)[q1] != contents(segments)[q2]
 //@     invariant [C05] forall q int :: off(segments) + rangeindex#2 < q && q < off(segments) + len(segments) ==> contents(segments)[q].meta.Full
+
+// ---- datalog.go: the segment file name parser ------------------------------------------------------------------------
+// Documented name format: <5-digit decimal segment id, 16 bit>-<decimal sequence id, 64 bit>.psg (older releases: no
+// "-<sequence id>"). The parser rejects a name only if its id part is not a 16-bit decimal or its sequence part is not a
+// 64-bit decimal: every name segmentName() can write - any uint16 id, any uint64 sequence id - is accepted back, and the
+// numbers it returns are the decimal values of the two parts (id narrowed losslessly).
+//@ func parseSegmentName(name string) (id uint16, seqID uint64, err error) [C18]
+//@   at return: assert [C18] rejects-only-malformed: err != nil ==> !decFits(parts[0], 16) || (len(parts) == 2 && !decFits(parts[1], 64))
+//@   at return: assert [C18] id-is-first-part: err == nil ==> decFits(parts[0], 16) && uint64(id) == decVal(parts[0])
+//@   at return: assert [C18] sequence-is-second-part: err == nil && len(parts) == 2 ==> decFits(parts[1], 64) && seqID == decVal(parts[1])
+//@   at return: assert [C18] legacy-name-sequence-zero: err == nil && len(parts) != 2 ==> seqID == 0
+//@   modifies nothing
